@@ -25,13 +25,14 @@ def callerOf (st : St) (kind : String) : Option Caller :=
   | "change" => mk "NewChangeAddress" fun h => { holdsMutex := h, branch := .int }
   | "cur" => mk "CurrentAddress" fun h => { holdsMutex := h, branch := .ext, cond := true, used := st.used }
   | "tx" => mk "txToOutputs" fun h => { holdsMutex := h, branch := .int }
+  | "tximp" => mk "txToOutputs" fun h => { holdsMutex := h, branch := .int }
   | "txdry" => mk "txToOutputs" fun h => { holdsMutex := h, branch := .int, dry := true }
   | "psbt" => mk "FundPsbt" fun h => { holdsMutex := h, branch := .int }
   | "import" => mk "ImportAccountDryRun" fun h => { holdsMutex := h, branch := .ext, skip := true, dry := true }
   | _ => none
 
 def knownKind (k : String) : Bool :=
-  ["new", "change", "cur", "tx", "txdry", "psbt", "import"].contains k
+  ["new", "change", "cur", "tx", "tximp", "txdry", "psbt", "import"].contains k
 
 def showIdx (m : Idx) : String := s!"{m.ext}/{m.int}"
 
